@@ -110,6 +110,11 @@ def check(repo: Repo) -> Result:
     unit_copy_values(repo, res, r4)
     res.check(bool(e) and all(x in ("self.expr", "str(self.expr)") for x in e), "Unit.copy:expr", fn.where(), "Unit.copy builds the copy from the original's expression (the object, or its printed text)", "self.expr | str(self.expr)", e, rid=r4)
     text_columns(repo, res)
+    from rules import c13
+    from rules.common import share
+
+    r6 = res.rule("C11-R6", "a deep copy owns its registry, and a restored registry owns its memo: the same follow-up program (edit a registry, then resolve a unit name) gives the same result on the copy / the restored object as on the original (shared with C13-R1)", floor=2)
+    share(res, r6, "C13", lambda t: c13.ownership(repo, t), ["C13-R1"], want=lambda k: k in ("unyt_array.__deepcopy__:deep-unit", "Unit.copy:deep-owns-registry", "Unit.__deepcopy__") or k.endswith(":no-class-level-state"), min_keys=5)
     return res
 
 
@@ -426,6 +431,8 @@ def rebuilt_from_table(repo, res):
 
 
 MUTANTS = [
+    Mutant("class-level-unit-cache", REG, None, "    _unit_system_id = None\n", "    _unit_system_id = None\n    _unit_object_cache = {}\n", ("C11-R6",)),
+    Mutant("array-deepcopy-shares-registry", ARR, "unyt_array.__deepcopy__", "copy.deepcopy(self.units)", "self.units.copy()", ("C11-R6",), count=2),
     Mutant("fixer-skips-current-format", REG, "_correct_old_unit_registry", "            unsan_v[1] = _base_dimension_singletons.get(unsan_v[1].name, unsan_v[1])", "            pass", ("C11-R1a", "C11-R1b")),
     Mutant("copy-deepcopies-dimensions", UO, "Unit.copy", "        dimensions = self.dimensions\n", "        dimensions = copy.deepcopy(self.dimensions)\n", ("C11-R1a", "C11-R1b")),
     Mutant("registry-deepcopies-rows", REG, "UnitRegistry.__deepcopy__", "lut = dict(self.lut)", "lut = copy.deepcopy(self.lut)", ("C11-R1a", "C11-R1b")),
